@@ -66,6 +66,8 @@ func runC02(c *Ctx) {
 	c.Rule("C02.reject-pure", "in every scenario a path returning a non-nil error contains no Leaf.Update and no Tree.Add (other than Add's own error)")
 	c.Rule("C02.del-cond", "the condition closure handed to ctree.WalkDeleted by gnmiRemove returns true iff stored timestamp < delete timestamp (evaluated at <, =, >)")
 	multiComplete(c, a, "C02.multi-complete")
+	c.Borrow("C15", map[string]string{"C15.latest": "C02.latest"}, "the future-timestamp rejection compares with the target's latest accepted timestamp, which must be the greatest accepted one")
+	gnmiDispatch(c, a, "C02.dispatch")
 	c.Rule("C02.del-honoured", "in ctree.internalDelete the leaf arm calls f and reports deletion only on the true edge of condition(value)")
 
 	nParam := ssa.Value(a.gnmiUpdate.Params[1])
